@@ -29,7 +29,8 @@ namespace Trion.Asm
 open Trion
 
 /-- the diagnostic kinds that processing the statement `el` (or its queued task) pushes: by the statement's class —
-label: `inactive`, `label _`; directive: `dirNotFound`, `dirTooMany`, `dirNotEnough`, `dirArgType`, `dirApply`;
+label: `inactive`, `label _`; directive NAMED `n`: `dirNotFound n`, and `dirTooMany s`, `dirNotEnough s`, `dirArgType s`,
+`dirApply s _` with `bytesOf s = n` (the directive name carried by the kind IS the statement's name);
 instruction: `inactive`, `instrNotFound`, `instrTooMany`, `instrNotEnough`, `instrArgType`, `instrAssemble` -/
 def Pushes (el : Element) (k : Kind) : Prop := pushesC (Cls.of el.val) k = true
 
@@ -138,6 +139,38 @@ theorem blame_dir {els : List Element} {err : Option ParseErr} {d : Diag} (h : B
     | instruction n a => rw [hv] at hp; revert hk hp; cases d.kind <;> simp [Kind.isDir, pushesC, Cls.of]
   · rw [h3] at hk; cases hk
 
+/-- the directive name a directive diagnostic carries -/
+def Kind.dirName : Kind → Option Bytes
+  | .dirNotFound m => some m
+  | .dirTooMany s .. | .dirNotEnough s .. | .dirArgType s .. | .dirApply s _ => some (bytesOf s)
+  | _ => none
+
+/-- C12.blame_dir_name  **a directive diagnostic is blamed on the directive statement OF THAT NAME**: `dirApply "du8" …`
+on a `.du8` statement (also when pushed by its queued data task), `dirApply "global" …` on a `.global` statement (also when
+pushed by its closure, in whichever loop runs it), `dirNotFound n` on the statement `.n …` -/
+theorem blame_dir_name {els : List Element} {err : Option ParseErr} {d : Diag} (h : Blamed els err d) {n : Bytes}
+    (hk : d.kind.dirName = some n) :
+    ∃ el ∈ els, d.line = el.line ∧ d.col = el.col ∧ ∃ args, el.val = .directive n args := by
+  rcases h with ⟨el, hel, h1, h2, hp⟩ | ⟨e, _, _, _, h3⟩
+  · refine ⟨el, hel, h1, h2, ?_⟩
+    unfold Pushes at hp
+    cases hv : el.val with
+    | directive m a =>
+      rw [hv] at hp
+      refine ⟨a, ?_⟩
+      revert hk hp
+      cases d.kind <;> simp [Kind.dirName, pushesC, Cls.of] <;> (intro e1 e2; rw [← e1, e2])
+    | label m => rw [hv] at hp; revert hk hp; cases d.kind <;> simp [Kind.dirName, pushesC, Cls.of]
+    | instruction m a => rw [hv] at hp; revert hk hp; cases d.kind <;> simp [Kind.dirName, pushesC, Cls.of]
+  · rw [h3] at hk; cases hk
+
+/-- C12.blame_include  **the reports of `.include` itself** (`IncludeFailed`, `IncludeNoSuchFile`, its argument errors) are
+blamed on a statement NAMED `include` of the file the diagnostic names — the includer -/
+theorem blame_include {els : List Element} {err : Option ParseErr} {d : Diag} (h : Blamed els err d) {src : Inner}
+    (hk : d.kind = .dirApply "include" src) :
+    ∃ el ∈ els, d.line = el.line ∧ d.col = el.col ∧ ∃ args, el.val = .directive (bytesOf "include") args :=
+  blame_dir_name h (by rw [hk]; rfl)
+
 /-- C12.blame_label  a `label` diagnostic (duplicate / reserved label …) is blamed on a label statement -/
 theorem blame_label {els : List Element} {err : Option ParseErr} {d : Diag} (h : Blamed els err d) {i : Inner}
     (hk : d.kind = .label i) : ∃ el ∈ els, d.line = el.line ∧ d.col = el.col ∧ ∃ name, el.val = .label name := by
@@ -156,6 +189,8 @@ example : Pushes ⟨3, 5, .instruction (bytesOf "FOO") (Args.ofList [])⟩ (.ins
 example : ¬ Pushes ⟨3, 5, .label (bytesOf "x")⟩ (.instrNotFound (bytesOf "FOO")) := by decide
 example : ¬ Pushes ⟨3, 5, .instruction (bytesOf "FOO") (Args.ofList [])⟩ (.dirApply "include" (.includeFailed [])) := by decide
 example : Pushes ⟨1, 1, .directive (bytesOf "include") (Args.ofList [.str []])⟩ (.dirApply "include" (.includeFailed [])) := by
+  decide
+example : ¬ Pushes ⟨1, 1, .directive (bytesOf "du8") (Args.ofList [.str []])⟩ (.dirApply "include" (.includeFailed [])) := by
   decide
 
 end Trion.Asm
